@@ -6,7 +6,7 @@ From Coq Require Import Lia.
 Open Scope N_scope.
 
 Definition label_index (l : label) : nat :=
-  match l with LC i | LCW i | LT i => i | LTs j => j | LPat k => k | LSdp k => k end.
+  match l with LC i | LCW i | LT i => i | LTs j => j | LPat k => k | LSdp k => k | LRtp j => j end.
 Definition label_ge (n : nat) (l : label) : Prop := (n <= label_index l)%nat.
 
 Definition cspec_ge (n : nat) (sp : cspec) : Prop :=
@@ -53,7 +53,7 @@ Lemma sstep_ge cf n sp e :
   (n <= ss_n sp)%nat -> cspec_ge n (ss_rtmp sp) -> cspec_ge n (ss_flv sp) ->
   (n <= ss_n (sstep cf sp e))%nat /\ cspec_ge n (ss_rtmp (sstep cf sp e)) /\ cspec_ge n (ss_flv (sstep cf sp e)).
 Proof.
-  intros Hn Hr Hf. destruct e as [m|k id|id| | |b| | |did]; cbn [sstep]; try (split; [assumption|split; assumption]).
+  intros Hn Hr Hf. destruct e as [m|k id|id| | |b| |v|pid|raw|]; cbn [sstep]; try (split; [assumption|split; assumption]).
   - destruct (Nat.eqb _ 0); cbn [ss_n ss_rtmp ss_flv]; [split; [lia|split; assumption]|].
     split; [lia|split].
     + destruct (cf_rtmp_enable cf); [|assumption].
@@ -61,6 +61,7 @@ Proof.
     + destruct (cf_flv_enable cf); [|assumption].
       apply cspec_feed_ge; try assumption; unfold label_ge; cbn; lia.
   - destruct (ss_in sp); cbn [ss_n ss_rtmp ss_flv]; (split; [assumption|split]); try assumption; apply cspec_ge_init.
+  - cbn [ss_n ss_rtmp ss_flv]. split; [assumption|split; apply cspec_ge_init].
 Qed.
 
 Lemma sfold_ge cf n h : forall sp,
